@@ -94,6 +94,8 @@ func renderTo(sb *strings.Builder, v any) {
 		fmt.Fprintf(sb, "I(%d)", t)
 	case int:
 		fmt.Fprintf(sb, "I(%d)", t)
+	case uint64:
+		fmt.Fprintf(sb, "I(%d)", t)
 	case float64:
 		fmt.Fprintf(sb, "F(%016x)", math.Float64bits(t))
 	case json.Number:
